@@ -9,11 +9,11 @@ META = {
                   "where the waiter's reply is ready while it polls an empty stream: serve releases the receive lock and notifies before it dispatches) and c14_only_this_window "
                   "(in every reachable state a waiter whose reply has been processed and that cannot move is either polling an empty stream itself or sleeping behind a thread "
                   "that holds / has just released the receive lock), and c14_window_entered_from_the_test (a ghost layer over the same system, proofs/ServeG.v: in every execution a waiter "
-                  "past its readiness test made that test when its reply had not been dispatched yet and has not slept since - a woken sleeper goes back to the test first). The check replays random schedules of the real code under a virtual clock and reports any lateness; the two "
+                  "past its readiness test made that test when its reply had not been dispatched yet and has not slept since - a woken sleeper goes back to the test first). The bounded half (proofs/ServeL.v): c14_late_waiter_returns_alone (from every reachable state in which its reply has been processed, the waiter's own moves - program steps, and its own poll/wait timeout only where it has no step - take it to Returned within six moves with at most ONE timeout; no other thread, traffic or notification is needed: the hold-up is bounded and never a deadlock) and c14_timeout_needed_only_near_the_window (a timeout is needed only asleep / polling an empty stream / one step before those; everywhere else it returns by program steps alone). The check replays random schedules of the real code under a virtual clock and reports any lateness; the two "
                   "window shapes are the known finding F5, anything else is a new violation. The schedule of the refutation theorem itself is also driven deterministically on the real code (witness phase).",
     "level_note": "Trusted: Coq kernel, pygen, extraction+driver, the virtual Lock/Condition/poll/clock (harness/vsched.py). Lateness is measured in virtual time; wall-clock "
                   "scheduling is outside the model.",
-    "technique": "Coq: refutation by explicit schedule + invariant-based classification of every blocked waiter; virtual-clock schedule replay of the real code",
+    "technique": "Coq: refutation by explicit schedule + invariant-based classification of every blocked waiter + rank argument bounding the hold-up by one own timeout; virtual-clock schedule replay of the real code",
     "gen": ["serve", "stream", "protocol"],
     "shapes": ["serve.*", "stream.Stream.poll", "protocol.Connection.__init__", "protocol.Connection._get_seq_id", "protocol.Connection.serve", "protocol.Connection._dispatch", "protocol.Connection._dispatch_response"],
     "models": ["serve"],
